@@ -13,6 +13,15 @@ type failure struct {
 	detail any
 }
 
+// sessionOf: the session a once-in-order verdict is about
+func (f failure) sessionOf() string {
+	if m, ok := f.detail.(map[string]any); ok {
+		s, _ := m["session"].(string)
+		return s
+	}
+	return ""
+}
+
 // judge evaluates the oracle of one property on one executed history. Everything it
 // uses comes from the generated history (plans, op order) and from what the
 // implementation emitted / held; the Coq model is not consulted.
@@ -25,9 +34,27 @@ func judge(prop string, h History, res runResult) []failure {
 	case "C04":
 		return append(oracleSilence(h, res), oracleIdentity(h, res, true)...)
 	case "C09":
-		return append(oracleEnded(h, res), oracleIdentity(h, res, false)...)
+		// "... is bound to the next session opened by that PID, whose events are then emitted with the new identity":
+		// the sessions of a re-used pid must also be emitted (a new session that stays silent carries no wrong identity,
+		// yet is not what C09 states); order and duplicates are C02's business, not asked here
+		fs := append(oracleEnded(h, res), oracleIdentity(h, res, false)...)
+		reused := reusedPIDs(h)
+		for _, f := range oracleOnceInOrder(h, res) {
+			if f.key == "once:event-lost-or-held" && reused[h.Plans[f.sessionOf()].PID] {
+				fs = append(fs, f)
+			}
+		}
+		return fs
 	case "C16":
-		return oracleCleanup(h, res)
+		// "two halves arriving within [the window] are always correlated ... the held events are dropped, not emitted
+		// late": of the once-in-order oracle the two verdicts that say exactly this
+		fs := oracleCleanup(h, res)
+		for _, f := range oracleOnceInOrder(h, res) {
+			if f.key == "once:event-lost-or-held" || f.key == "once:discarded-half-emitted-late" {
+				fs = append(fs, f)
+			}
+		}
+		return fs
 	}
 	var all []failure
 	all = append(all, oracleIdentity(h, res, false)...)
@@ -193,6 +220,23 @@ func oracleOnceInOrder(h History, res runResult) []failure {
 
 type emittedAt struct{ id, op int }
 
+// reusedPIDs: the pids for which more than one valid login is delivered in the history.
+func reusedPIDs(h History) map[int]bool {
+	n := map[int]int{}
+	for _, o := range h.Ops {
+		if o.Kind == "login" && o.Login.Invalid == "" && o.Login.PID > 0 {
+			n[o.Login.PID]++
+		}
+	}
+	r := map[int]bool{}
+	for p, k := range n {
+		if k > 1 {
+			r[p] = true
+		}
+	}
+	return r
+}
+
 func ids(es []emittedAt) []int {
 	var r []int
 	for _, e := range es {
@@ -330,7 +374,62 @@ func oracleCleanup(h History, res runResult) []failure {
 			if len(st.Post.Sess) != len(st.Pre.Sess) || len(st.Out) > 0 {
 				fs = append(fs, failure{"cleanup:side-effect", fmt.Sprintf("op %d: login cleanup changed sessions or emitted events", i), map[string]any{"op": i}})
 			}
+			// ... and WHICH logins are waiting is taken from the history too, not only from the implementation's own map:
+			// a login that was delivered, that nothing can have taken, and that is younger than the cut-off
+			for pid, l := range surelyWaiting(h, i) {
+				if _, kept := st.Post.Parked[pid]; !kept && !(l.AtIdx < o.Cut) {
+					fs = append(fs, failure{"cleanup:young-login-discarded",
+						fmt.Sprintf("op %d: login %d (pid %d, logged at boundary %d) was delivered at op %d, no LOGIN record of that pid has been processed and no cleanup since had a later cut-off; it is younger than this cut-off (boundary %d), yet no login of that pid is waiting after the cleanup",
+							i, l.ID, pid, l.AtIdx, loginOpIndex(h, l.ID), o.Cut), map[string]any{"op": i, "login": l.ID}})
+				}
+			}
 		}
 	}
 	return fs
+}
+
+func loginOpIndex(h History, id int) int {
+	for i, o := range h.Ops {
+		if o.Kind == "login" && o.Login.ID == id {
+			return i
+		}
+	}
+	return -1
+}
+
+// surelyWaiting: the logins that, by the history alone, must be waiting for their session just before op n: per pid the
+// LATEST valid login delivered before n (a later login supersedes an earlier one that still waits), provided that no
+// LOGIN record carrying that pid has been processed before n (nothing can have taken it, and it cannot have been bound
+// on arrival) and that no login cleanup since its delivery had a cut-off later than its log time.  Deliberately
+// partial: where this does not follow from the history, nothing is claimed.
+func surelyWaiting(h History, n int) map[int]*HLogin {
+	w := map[int]*HLogin{}
+	if h.Budget >= 0 {
+		return w
+	}
+	at := map[int]int{}
+	for k := 0; k < n && k < len(h.Ops); k++ {
+		if o := h.Ops[k]; o.Kind == "login" && o.Login.Invalid == "" && o.Login.PID > 0 {
+			w[o.Login.PID] = o.Login
+			at[o.Login.PID] = k
+		}
+	}
+	for pid, l := range w {
+		sure := true
+		for k := 0; k < n && k < len(h.Ops) && sure; k++ {
+			o := h.Ops[k]
+			switch {
+			case o.Kind == "audit" && o.Event.Type == "LOGIN":
+				if p, err := strconv.Atoi(o.Event.PIDText); err == nil && p == pid {
+					sure = false
+				}
+			case o.Kind == "clean_logins" && k > at[pid] && o.Cut > l.AtIdx:
+				sure = false
+			}
+		}
+		if !sure {
+			delete(w, pid)
+		}
+	}
+	return w
 }
